@@ -85,6 +85,39 @@ def rand_scalar(rng, edge_p=0.3):
     return rng.randrange(Q)
 
 
+SHAPES = ("two_equal", "all_u64", "all_digits", "zero_prefix", "zero_suffix", "u32_band", "one_wide_rest_small")
+
+
+def shaped_tuple(rng, n, kind):
+    """whole-tuple shapes (conditions on SEVERAL entries at once, which entry-wise sampling never produces): two entries equal;
+    every entry below 2^64 (mixing digits, the bands around 2^32 and [2^63, 2^64)); every entry a base-128 digit; a run of zeros
+    at the front / at the back; every entry next to 2^32; exactly one full-width entry among small ones"""
+    def band64():
+        return rng.choice([rng.randrange(128), 2 ** 32 + rng.randrange(-2, 3), rng.randrange(2 ** 63, 2 ** 64), 2 ** 63 - 1 - rng.randrange(3),
+                           rng.randrange(2 ** 64), 2 ** 64 - 1 - rng.randrange(3)])
+    if kind == "two_equal":
+        ms = [rand_scalar(rng, 0.2) for _ in range(n)]
+        if n >= 2:
+            i, j = rng.sample(range(n), 2)
+            ms[j] = ms[i] = ms[i] or 7
+        return ms
+    if kind == "all_u64":
+        return [band64() for _ in range(n)]
+    if kind == "all_digits":
+        return [rng.choice([0, 1, 127, rng.randrange(128)]) for _ in range(n)]
+    if kind in ("zero_prefix", "zero_suffix"):
+        k = rng.randrange(1, n) if n > 1 else 1
+        body = [rand_nz(rng) for _ in range(n - k)]
+        return [0] * k + body if kind == "zero_prefix" else body + [0] * k
+    if kind == "u32_band":
+        return [2 ** 32 + rng.randrange(-3, 4) for _ in range(n)]
+    if kind == "one_wide_rest_small":
+        ms = [rng.randrange(2 ** 32) for _ in range(n)]
+        ms[rng.randrange(n)] = rng.randrange(2 ** 200, Q)
+        return ms
+    raise ValueError(kind)
+
+
 def distinct_scalars(rng, n, edge_p=0.1, avoid=()):
     """n pairwise distinct scalars (some from the edge set), none in `avoid`"""
     out = []
